@@ -92,28 +92,39 @@ def indep_convolution(rsl, chi, interp, grid):
 def search_entries(chk, r, n, max_pto, thorough):
     """every operator entry of a real run == sum over the Combiner's kernels of
     weight x point x (independent quadrature of the RSL against the real basis function)"""
-    for i in range(n):
+    # deterministic cases in both tiers: one a_s^2 run (coefficient functions with a regular and a
+    # delta piece but no plus distribution first appear there) and grids whose last node is below 1
+    # (the plus prescription still integrates down to z = x)
+    forced = [dict(cfg=1, pto=2, N=6, top=1.0, where="generic", is_log=True), dict(cfg=0, pto=1, N=7, top=0.8, where="generic", is_log=True),
+              dict(cfg=3, pto=1, N=7, top=0.8, where="node", is_log=True), dict(cfg=2, pto=1, N=6, top=0.6, where="last-interval", is_log=False)]
+    for i in range(-len(forced), n):
+        f_ = forced[i + len(forced)] if i < 0 else None
+        i = max(i, 0)
         cfg = CONFIGS[i % len(CONFIGS)] if i < len(CONFIGS) or not thorough else r.choice(CONFIGS)
         pto = r.choice([0, 1]) if max_pto < 2 else r.choice([1, 1, 2] if cfg[1] in ("light", "total") and cfg[4] == "ZM-VFNS" else [1])
         N = r.choice([6, 7, 8])
         degree = r.choice([2, 3, 4]) if N > 4 else 2
         is_log = r.random() < 0.75
+        top = float(r.choice([1.0, 1.0, 1.0, 1.0, 0.8, 0.6]))
+        where = r.choice(["last-interval", "generic", "node", "first-interval", "last-two"])
+        if f_ is not None:
+            cfg, pto, N, top, where, is_log = CONFIGS[f_["cfg"]], f_["pto"], f_["N"], f_["top"], f_["where"], f_["is_log"]
         grid = cards.default_grid(N, float(r.choice([1e-2, 0.03]))) if is_log else cards.linspace(0.05, 1.0, N)
         grid[-1] = 1.0
-        where = r.choice(["last-interval", "generic", "node", "first-interval", "last-two"])
+        grid = [float(g * top) for g in grid]
         x = dict(
             generic=float(r.uniform(grid[1], grid[-2])),
             node=float(r.choice(grid[1:-1])),
         ).get(where)
         if where == "last-interval":
-            x = float(r.uniform(grid[-2], 0.985))
+            x = float(r.uniform(grid[-2], 0.985 * top))
         elif where == "last-two":
             x = float(r.uniform(grid[-3], grid[-2]))
         elif where == "first-interval":
             x = float(r.uniform(grid[0], grid[1]))
         Q2 = float(r.choice([4.0, 20.0, 90.0, 1000.0]))
         pt = dict(x=x, Q2=Q2)
-        case = dict(config=cfg[:6], PTO=pto, x=x, Q2=Q2, where=where, grid=grid, degree=degree, is_log=is_log)
+        case = dict(config=cfg[:6], PTO=pto, x=x, Q2=Q2, where=where, grid=grid, grid_top=top, degree=degree, is_log=is_log)
         try:
             runner, name = make_runner(cfg, pto, grid, degree, is_log, [pt])
             real = runner.get_result()[name][0]
